@@ -311,12 +311,22 @@ def replay_readcode(cex, d):
     # interpreter's concrete evaluation of the REAL readcode() output plus the rule it rests on
     from ..lang.syntax import IllFormed as IF
     with rp.scratch() as tmp:
-        small_ext = [min(x, 4) + i for i, x in enumerate(ext)]      # distinct small extents
-        ref0 = rp.values(np_, small_ext[0] + 2, tuple(small_ext[1:]), numtype, bo)
-        a = darr.asarray(tmp + '/arr', ref0[:2])
-        # the handle `a` is opened BEFORE another handle appends: its cached shape is stale, the
+        # the solver's extents themselves when they are small (an extent of exactly 1 or 0 may be what matters);
+        # large ones are replaced by distinct small ones
+        small_ext = [x if x <= 6 else min(x, 4) + i + 3 for i, x in enumerate(ext)]
+        n0 = small_ext[0]
+        ref0 = rp.values(np_, max(n0, 1), tuple(small_ext[1:]), numtype, bo)
+        # the handle `a` is opened BEFORE another handle changes the length: its cached shape is stale, the
         # generated code must describe what is stored
-        darr.Array(tmp + '/arr', accessmode='r+').append(ref0[2:])
+        if n0 >= 1:
+            if n0 - 1 > 0:
+                a = darr.asarray(tmp + '/arr', ref0[:n0 - 1])
+            else:
+                a = darr.create_array(tmp + '/arr', shape=(0,) + tuple(small_ext[1:]), dtype=ref0.dtype)
+            darr.Array(tmp + '/arr', accessmode='r+').append(ref0[n0 - 1:])
+        else:
+            a = darr.asarray(tmp + '/arr', ref0)
+            darr.truncate_array(tmp + '/arr', 0)
         ref = ref0
         probs = []
         if lang in ('numpy', 'numpymemmap', 'python', 'darr'):
@@ -339,7 +349,7 @@ def replay_readcode(cex, d):
                 probs.append(f'{lang} offered although the table withholds it')
             try:
                 den = arraycode.INTERPRETERS[lang](code)
-                check_denotation(den, lang, numtype, bo, [small_ext[0] + 2] + small_ext[1:], exp)
+                check_denotation(den, lang, numtype, bo, list(small_ext), exp)
             except IF as e:
                 probs.append(f'{lang} ({mode}): real readcode() output is not well-formed: {e}: {code!r}')
             except Violation as v:
